@@ -267,6 +267,16 @@ def main(ck):
                      # token count and the bracket-balance verdict itself): keeps the thorough tier's memory bounded
                      "maxtoks": 1 if len(c["hex"]) > 8000 else 0})
     outs = lexrun.run(binary, reqs, nproc=12)
+    # a watchdog that fired is confirmed by running the case again, alone, in a fresh worker: a real hang repeats, a
+    # starved worker on a loaded machine does not (the thorough tier runs 12 workers for twenty minutes next to other checks)
+    retried = 0
+    for i, o in enumerate(outs):
+        if o.get("parse") == "timeout":
+            retried += 1
+            again = lexrun.run(binary, [reqs[i]], nproc=1)
+            if again and again[0].get("parse") != "timeout" and not again[0].get("dead"):
+                outs[i] = again[0]
+    ck.cov["parse_timeouts_retried_alone"] = retried
     ck.log("real lexer + parser (+ interpreter on generated programs) ran")
 
     # ---- search results: crash / hang / accepted-then-crash
